@@ -685,7 +685,7 @@ func c18CycleEffects(c *Ctx) {
 // decision is compared with the exact ramp (128-bit integer arithmetic), sequentially, without controlled handlers.
 func c12LongRamp(c *Ctx) {
 	c.Cases("longramp", c.N(8, 150), func(i int, r *rand.Rand) {
-		D := pick(r, []time.Duration{time.Hour, 6 * time.Hour, 24 * time.Hour, 10 * time.Minute})
+		D := pick(r, []time.Duration{6 * time.Hour, 24 * time.Hour, 72 * time.Hour, 24 * time.Hour, 10 * time.Minute})
 		fb := time.Second
 		freeze(baseTime.Add(time.Duration(r.Int64N(1e9))))
 		defer unfreeze()
@@ -702,11 +702,11 @@ func c12LongRamp(c *Ctx) {
 		f.status.Store(200)
 		advance(fb)
 		m := &cbModel{cfg: cbConfig{Recovery: D}, rcStart: now()}
-		total := c.N(60000, 400000) + r.IntN(100000)
+		total := c.N(300000, 1500000) + r.IntN(100000)
 		done, amb := 0, 0
 		for done < total {
 			// a burst at one instant, then a gap
-			burst := 1 + r.IntN(20000)
+			burst := 1 + r.IntN(60000)
 			t := now()
 			if t.Sub(m.rcStart) > D {
 				break
